@@ -1,6 +1,5 @@
 //! C07: differential test modules - no expected constants, the flavours of one mapping are compared with each other.
 
-use crate::item::Shape;
 use crate::sem_enum::{ECase, VKind};
 use crate::sem_flat::{ChildCase, FMem};
 use crate::sem_struct::{CpForm, Flavour, SCase, SlotSrc};
@@ -227,4 +226,46 @@ pub fn raise_module(n: usize, raising: &[bool], named: bool) -> (String, String)
     o.push_str("}\n");
     let _ = fld;
     (o, item)
+}
+
+/// bare `#[parent]` whose own fallible conversion raises: the error must come out of every fallible flavour of the outer
+/// conversion (owned and by reference, Into and IntoExisting, and TryFrom).  Fixed layouts: named / tuple x plain member
+/// first / last.  (seed C07-03: a missing `?` after the parent's try_into_existing in the by-reference TryInto only)
+pub fn raise_parent_modules() -> Vec<(String, Vec<String>, Vec<String>)> {
+    let mut v = vec![];
+    for named in [true, false] {
+        for plain_first in [true, false] {
+            let d = "#[derive(Clone, Debug, PartialEq, Default)]";
+            let mut o = String::from(HEAD);
+            let _ = writeln!(o, "{d} pub struct Tf {{ pub u: i32, pub a: i32, pub b: i32 }}");
+            let p_item = "#[try_from_ref(Tf, Er)]\n#[try_into_existing(Tf, Er)]\npub struct P { #[try_from_ref(chk(~, 10)?)] #[try_into(chk(~, 10)?)] pub a: i32, pub b: i32 }\n".to_string();
+            let _ = writeln!(o, "{d}\n#[derive(o2o::o2o)]\n{}", p_item);
+            let hint = if named { "" } else { " as {}" };
+            let plain = if named { "#[try_map(chk(~, 20)?)] u: i32" } else { "#[try_map(u, chk(~, 20)?)] i32" };
+            let parent = if named { "#[parent] p: P" } else { "#[parent] P" };
+            let members = if plain_first { vec![plain, parent] } else { vec![parent, plain] };
+            let s_item = format!("#[try_map(Tf{hint}, Er)]\n#[try_into_existing(Tf{hint}, Er)]\n{}\n", if named { format!("pub struct S {{ {} }}", members.join(", ")) } else { format!("pub struct S({});", members.join(", ")) });
+            let _ = writeln!(o, "{d}\n#[derive(o2o::o2o)]\n{}", s_item);
+            let s_val = |u: i64, a: i64, b: i64| {
+                let pu = if named { format!("u: {}", u) } else { u.to_string() };
+                let pp = if named { format!("p: P {{ a: {}, b: {} }}", a, b) } else { format!("P {{ a: {}, b: {} }}", a, b) };
+                let parts = if plain_first { vec![pu, pp] } else { vec![pp, pu] };
+                if named { format!("S {{ {} }}", parts.join(", ")) } else { format!("S({})", parts.join(", ")) }
+            };
+            let _ = writeln!(o, "pub fn run(r: &mut Rec) {{");
+            // which member is triggered: none | the plain one | the parent's
+            for (label, u, a) in [("none", 5i64, 7i64), ("plain", -777, 7), ("parent", 5, -777)] {
+                let exp_err = match label { "plain" => Some(20), "parent" => Some(10), _ => None };
+                let exp_s = match exp_err { Some(m) => format!("Err(Er({}))", m), None => format!("Ok({})", s_val(u + 20, a + 10, 9)) };
+                let exp_t = match exp_err { Some(m) => format!("Err(Er({}))", m), None => format!("Ok(T {{ u: {}, a: {}, b: 9 }})", u + 20, a + 10) };
+                let exp_e = match exp_err { Some(m) => format!("Err(Er({}))", m), None => "Ok(())".to_string() };
+                let _ = writeln!(o, "  {{ let t = Tf {{ u: {u}, a: {a}, b: 9 }}; r.same(\"try_from_owned/{label}\", dbg(&<S as TryFrom<Tf>>::try_from(t.clone())), \"{exp_s}\".to_string()); r.same(\"try_from_ref/{label}\", dbg(&<S as TryFrom<&Tf>>::try_from(&t)), \"{exp_s}\".to_string()); }}");
+                let _ = writeln!(o, "  {{ let s = {}; r.same(\"try_owned_into/{label}\", dbg(&<S as TryInto<Tf>>::try_into(s.clone())), \"{exp_t}\".to_string()); r.same(\"try_ref_into/{label}\", dbg(&<&S as TryInto<Tf>>::try_into(&s)), \"{exp_t}\".to_string());", s_val(u, a, 9));
+                let _ = writeln!(o, "    let mut o1 = Tf {{ u: 900, a: 901, b: 902 }}; r.same(\"try_owned_into_existing/{label}\", dbg(&<S as TryIntoExisting<Tf>>::try_into_existing(s.clone(), &mut o1)), \"{exp_e}\".to_string()); let mut o2 = Tf {{ u: 900, a: 901, b: 902 }}; r.same(\"try_ref_into_existing/{label}\", dbg(&<&S as TryIntoExisting<Tf>>::try_into_existing(&s, &mut o2)), \"{exp_e}\".to_string()); }}");
+            }
+            o.push_str("}\n");
+            v.push((o, vec![s_item, p_item], vec!["raise-parent".to_string(), format!("shape={}", if named { "named" } else { "tuple" }), format!("plain_first={}", plain_first)]));
+        }
+    }
+    v
 }
